@@ -314,9 +314,29 @@ def arm_family(seed, n, base_id, k=3, p_ctx=0.0, p_bare=0.2):
             re = cats(*parts)
             ctx = None
             if p_ctx and rnd.random() < p_ctx:
-                # a right context: a letter, a class of letters, a suffix character or `$`
+                # a right context: a letter, a class of letters, a suffix character or `$` ...
                 ctx = rnd.choice([chr_(rnd.choice(L)), set_([rng()]), chr_(62), eoi(),
                                   diff(any_(), chr_(rnd.choice(L)))])
+                if rnd.random() < 0.45:
+                    # ... or a context whose own automaton has a state with character, range and
+                    # `_` arms at once: alternatives that diverge on overlapping class atoms
+                    branches = []
+                    for _b in range(rnd.choice([2, 3, 3])):
+                        sfx = suffix()
+                        branches.append(cats(*[x for x in (atom(), sfx) if x is not None]))
+                    ctx = alts(*branches)
+                if rnd.random() < 0.3:
+                    # ... or one in which a character is named literally in one alternative and is
+                    # all that is left of a range in another (a one-character range piece next to
+                    # a character arm, with different continuations)
+                    c_ = rnd.choice(L[1:-1])
+                    piece = rnd.choice([
+                        [set_([(c_ - 1, c_)]), set_([(c_, c_ + 1)])],
+                        [{"k": "set", "items": [{"lo": c_, "hi": c_, "as_range": True}]}],
+                        [diff(set_([(c_ - 1, c_)]), chr_(c_ - 1))],
+                    ])
+                    tails = [chr_(62), chr_(33)]
+                    ctx = alts(chr_(c_), *[cat(x, t) for x, t in zip(piece, tails)])
             rules.append(inf_rule(re, ctx=ctx) if rnd.random() < 0.8 else simple_rule(re, ctx=ctx))
         if p_ctx and rnd.random() < 0.35:
             # the "sign" template: a context-guarded class first, then different rules for its
